@@ -63,6 +63,30 @@ MANIFEST_TEXT["C12"] = {
     "design_ref": "DESIGN.md section 3 / C12",
 }
 
+PLAN["C14"] = {
+    "pkg": "c14",
+    "tests": [
+        {"name": "TestQueryTextRoundTrip", "quick": (800000, 8), "thorough": (8000000, 16)},
+        {"name": "TestBuiltQueryRoundTrip", "quick": (400000, 4), "thorough": (6000000, 16)},
+        {"name": "TestInjection", "quick": (400000, 4), "thorough": (6000000, 16)},
+    ],
+    "budget": {"quick": 600, "thorough": 5400},
+    "rule": "(a) query text drawn from the ContactQL grammar (implicit conditions, all comparators and aliases, nested AND/OR/implicit-AND, "
+            "bare and quoted literals, property prefixes), with/without resolver, both redaction policies, three date formats: parse -> "
+            "format -> parse must succeed, print identically and give a node-by-node equal tree; (b) programmatic NewCondition/"
+            "NewBoolCombination trees valid by construction with hostile text values: Parse(Stringify(t)) == t.Simplify(); (c) values "
+            "substituted into multi-condition templates through Evaluator.Template with flows.ContactQueryEscaping must parse to exactly "
+            "the intended tree. Non-trivial = at least 2 conditions or a value containing a quote, backslash, operator, parenthesis or "
+            "keyword; distinct by query text / tree / (template, values).",
+    "assumptions": COMMON_ASSUMPTIONS + ["tree equality is judged through the exported accessors (PropertyType, PropertyKey, Operator, Value, Children)"],
+}
+MANIFEST_TEXT["C14"] = {
+    "technique": "property-based testing (rapid): grammar-based query generation with parse/print/parse round-trip oracle, programmatic-tree round trip, and escaping-injection differential against the intended tree",
+    "level_text": "Exploration: every generated query/tree/template round-tripped to a structurally identical query; the one listed lexer finding is classified only when the query is rejected (an accepted-but-altered parse is always a violation).",
+    "level_note": "Trusts the harness's structural comparison through exported accessors and the mock resolver (7 fields, 2 flows, 3 groups).",
+    "design_ref": "DESIGN.md section 3 / C14",
+}
+
 # every property without a registered check is listed here with the reason (kept current as checks are added)
 NOT_APPLICABLE = [{"property_id": pid, "reason": "check not built yet in this round (planned in DESIGN.md); nothing is claimed for it"}
                   for pid in ALL_IDS if pid not in PLAN]
